@@ -341,13 +341,18 @@ AtoiErr(s) == ~SignedDigits(s)          \* (a range error too, but then the valu
 \* a request: [m, kind, key, idx]   m in GET / DELETE / POST; kind in blacklists / rewriters / aggregators / routes /
 \* dests (routes/{key}/destinations/{idx}) / table; key, idx: the path segments as text ("" = segment absent).
 \* Result [st, T]; st = HTTP status, 0 = the handler panicked: net/http drops the connection without a response.
+\*
+\* NotFound: every "could not find" answer of web.go is built as &handlerError{nil, message, 404}, and ServeHTTP
+\* formats it with err.Error.Error() -- a nil dereference.  The request is therefore not answered at all (status 0);
+\* the table had not been touched.  "notfound_answered" names the behaviour that was intended (a 404 response).
+NotFound == IF Mutant = "notfound_answered" THEN 404 ELSE 0
 DelIdx(list, s) ==
     LET i == IF Mutant = "idx_strict" /\ AtoiErr(s) THEN Big ELSE AtoiVal(s) IN
     CASE Mutant = "del_off_by_one" /\ i >= 0 /\ i + 1 < Len(list) -> [st |-> 200, l |-> TO!RemoveAt(list, i + 2)]
       [] Mutant = "neg_wraps" /\ i < 0 /\ Len(list) + i >= 0 -> [st |-> 200, l |-> TO!RemoveAt(list, Len(list) + i + 1)]
       [] Mutant = "oob_clamps" /\ i >= Len(list) /\ Len(list) > 0 -> [st |-> 200, l |-> TO!RemoveAt(list, Len(list))]
-      [] Mutant = "idx_le_len" /\ i = Len(list) -> [st |-> 0, l |-> list]            \* `index > len` instead of >=
-      [] i >= Len(list) -> [st |-> 404, l |-> list]
+      [] Mutant = "oob_ok" /\ i >= Len(list) -> [st |-> 200, l |-> list]                 \* the error of the table is dropped
+      [] i >= Len(list) -> [st |-> NotFound, l |-> list]
       [] i < 0 -> [st |-> 0, l |-> list]                                             \* slice bounds out of range
       [] OTHER -> [st |-> 200, l |-> TO!RemoveAt(list, i + 1)]
 
@@ -364,7 +369,7 @@ HttpExec(T, q) ==
             ELSE [st |-> 200, T |-> IF i = 0 THEN T ELSE [T EXCEPT !.rt = TO!RemoveAt(@, i)]]      \* unknown key: 200, no-op
       [] q.m = "DELETE" /\ q.kind = "dests" ->
             LET i == RouteIdx(T, q.key) IN
-            IF i = 0 THEN [st |-> 404, T |-> T]
+            IF i = 0 THEN [st |-> NotFound, T |-> T]
             ELSE LET r == DelIdx(T.rt[i].dests, q.idx) IN [st |-> r.st, T |-> [T EXCEPT !.rt[i].dests = r.l]]
       \* POST: q.key = the entry as the table will show it, q.idx = "ok" | "badjson" (class of the body);
       \* POST /routes is always refused: the JSON decoder cannot set the unexported periodFlush / periodReconn of
@@ -373,7 +378,7 @@ HttpExec(T, q) ==
       [] q.m = "POST" /\ q.kind = "rewriters" -> [st |-> 200, T |-> [T EXCEPT !.rw = Append(@, q.key)]]
       [] q.m = "POST" /\ q.kind = "aggregators" -> [st |-> 200, T |-> [T EXCEPT !.agg = Append(@, q.key)]]
       [] q.m = "POST" /\ q.kind = "routes" -> [st |-> 400, T |-> T]
-      [] q.m = "GET" /\ q.kind = "routes" /\ q.key # "" -> [st |-> IF RouteIdx(T, q.key) = 0 THEN 404 ELSE 200, T |-> T]
+      [] q.m = "GET" /\ q.kind = "routes" /\ q.key # "" -> [st |-> IF RouteIdx(T, q.key) = 0 THEN NotFound ELSE 200, T |-> T]
       [] q.m = "GET" -> [st |-> 200, T |-> T]
       [] OTHER -> [st |-> 0 - 1, T |-> T]
 =============================================================================
